@@ -195,6 +195,10 @@ class _Match(Generic[AnyStr]):
                 )
             )
 
+        # An empty name matches nothing (but it still has to be of the patterns' type)
+        if not self.filename:
+            return False
+
         if self.real:
             if isinstance(self.filename, bytes):
                 root = root_dir if root_dir is not None else b'.'  # type: AnyStr
@@ -330,9 +334,6 @@ class WcRegexp(util.Immutable, Generic[AnyStr]):
     ) -> bool:
         """Filter filenames."""
 
-        if not filename:
-            return False
-
         return _Match(
             os.fspath(filename),
             self._include,
@@ -360,7 +361,7 @@ class WcRegexp(util.Immutable, Generic[AnyStr]):
         matches = [
             filename
             for filename in filenames
-            if filename and _Match(
+            if _Match(
                 os.fspath(filename),
                 self._include,
                 self._exclude,
